@@ -116,11 +116,8 @@ func matrixCells() []cell {
 		for _, k := range []string{"Cmaj7", "H", "xyzzy Dbb", "c", "Dbb", "F##", "Bbbm"} {
 			cells = append(cells, cell{"malformed key", "flag", st, []string{"--key", k}, validYAML, "", "--key " + k})
 		}
-		for _, a := range [][]string{{"--velocity", ""}, {"--key", ""}, {"--meter", ""}} {
+		for _, a := range [][]string{{"--bpm", "0"}, {"--bpm=0"}, {"--velocity", ""}, {"--key", ""}, {"--meter", ""}} {
 			cells = append(cells, cell{"no override", "flag", st, a, validYAML, "", strings.Join(a, " ")})
-		}
-		for _, a := range [][]string{{"--bpm", "0"}, {"--bpm=0"}, {"--bpm", "00"}} {
-			cells = append(cells, cell{"tempo 0", "flag", st, a, validYAML, "", strings.Join(a, " ")})
 		}
 		for _, a := range [][]string{{"--meter", "4/0"}, {"--meter=3/0"}} {
 			cells = append(cells, cell{"zero denominator", "flag", st, a, validYAML, "", strings.Join(a, " ")})
